@@ -414,3 +414,31 @@ fn replay(case: &Value, rec: &mut Rec) {
 fn _unused() {
     let _ = header_checksum;
 }
+
+/// fuzz entry: 80 header bytes + two bytes selecting the file length
+pub fn fuzz_file(data: &[u8]) -> CaseResult {
+    if data.len() < 83 {
+        return Ok(());
+    }
+    let mut header = data[..80].to_vec();
+    let sel = data[80];
+    let jitter = u16::from_le_bytes([data[81], data[82]]) as usize;
+    // keep the search inside loadable sizes: ROM codes above 6 are mapped down unless the byte is exotic
+    if header[0x48] > 6 && header[0x48] < 0x50 {
+        header[0x48] %= 7;
+    }
+    let banks = rom_banks_for_code(header[0x48]).unwrap_or(2);
+    let d = banks * 0x4000;
+    let len = match sel % 8 {
+        0 | 1 => d,
+        2 => d - 1,
+        3 => d + 1,
+        4 => 0x150,
+        5 => jitter % 0x200,
+        6 => (jitter * 64) % (d + 0x8000),
+        _ => d / 2,
+    };
+    let c = Case { header, len, fix_checksum: sel & 0x80 == 0 };
+    let mut rec = Rec::scratch("C19");
+    exec_case(&c, &mut rec, false).map_err(|f| Fail::new(f.sig, format!("{} [case {}]", f.detail, case_json(&finalize(&c)))))
+}
